@@ -13,7 +13,7 @@ RULE = ("eight case kinds, all running the real code of /repo on a fake host wit
         "(ctor) NewFullRT with generated BucketSize / WithIPDiversityFilterLimit / prefix options, the fields it stored, then a lookup; "
         "(crawl) crawler.DefaultCrawler.Run on graphs of 1-40 peers with dial failures, request failures, empty answers, address-less and duplicate seeds, parallelism 1-8; "
         "(refresh) 2-3 crawl rounds through the real runCrawler + DefaultCrawler with bootstrap peers and changing graphs, table and a lookup after each swap; "
-        "(swap) a reader held inside the real GetClosestPeers while the real runCrawler swaps the table, a second and third reader between the swap steps; "
+        "(swap) a reader held inside the real GetClosestPeers while the real runCrawler swaps the table, further readers queued behind / between the writer's lock acquisitions; "
         "(bulk/single) ProvideMany, PutMany, Provide, PutValue on empty and non-empty tables; (chunk) divideByChunkSize. "
         "A case is non-trivial when it has at least one crawled peer / queried peer; distinct = distinct (kind, K, limit, size class, branch tags "
         "skipped / short / paged / mixed / failures / duplicate seeds / stage reached) signatures")
@@ -30,49 +30,17 @@ TRUSTED = [
     "(the spinning call is then ended by pointing dht.rt at an empty trie); the recorded outcome is always what was observed",
 ]
 ASSUMPTIONS = [
-    "K, the limit and table sizes are non-negative machine integers far below 2^63 (negative configured values are outside the model)",
-    "a peer asked twice in one crawl gives the same answer (only matters for duplicate starting peers)",
+    "K, the limit and table sizes are non-negative machine integers far below 2^63 (negative configured values are outside the model; "
+    "WithIPDiversityFilterLimit does not reject a negative limit)",
+    "direct-state cases with K = 0 (a state NewFullRT can no longer produce) only compare model and implementation",
     "dial, request and send outcomes are scripted: workers always return (the real code bounds them with timeouts)",
     "crawler parallelism >= 1 for termination (with 0 workers the main loop blocks on its first hand-over; stated as a hypothesis of c16_crawl_progress)",
 ]
 
-# Known patterns are recognised by the verdict code computed in coq/Corr/Run_C16.v (given only when the real code
-# did exactly what the faithful model does) together with the recorded inputs.
-_CODES = {
-    10: "crawl-swap-mixed-read",
-    11: "k0-limit0-spins",
-    12: "bulk-empty-table-div-zero",
-    13: "ip-diversity-limit-ignored",
-    14: "crawl-duplicate-seeds",
-    15: "ip-diversity-same-group-addrs-skip",
-    16: "k0-returns-whole-table",
-}
-
-
+# The seven defects found while building this check (empty-table divide by zero, dropped limit option, bucket size 0,
+# duplicate starting peers, three-step swap, same-group addresses, K = 0 returning the table) are repaired in /repo and
+# recorded as `fixed:` in known_findings.json.  There is no known finding for C16: every failure is a violation.
 def classify(desc, code):
-    kind = desc.get("kind")
-    if code == 10 and kind == "swap" and (desc.get("mixed_stage1") or desc.get("mixed_stage2")):
-        return _CODES[10]
-    if code == 11:
-        if kind in ("closest", "bulk", "single") and desc.get("K") == 0 and desc.get("limit") == 0 and desc.get("n", 0) > 0:
-            return _CODES[11]
-        if kind == "ctor" and desc.get("got_K") == 0 and desc.get("got_limit") == 0 and desc.get("n", 0) > 0:
-            return _CODES[11]
-    if code == 12 and kind == "bulk" and desc.get("n") == 0 and desc.get("keys", 0) > 0 and desc.get("obs", {}).get("kind") == "panic" \
-            and "divide by zero" in desc.get("obs", {}).get("err", ""):
-        return _CODES[12]
-    if code == 13 and kind == "ctor" and "got_limit" in desc:
-        want = desc.get("limit_opt")
-        if want is None or want < 0:
-            want = 3
-        if desc["got_limit"] == 0 and want != 0:
-            return _CODES[13]
-    if code == 14 and ((kind == "crawl" and desc.get("dup_seeds")) or (kind == "refresh" and desc.get("dup_round"))):
-        return _CODES[14]
-    if code == 15 and kind in ("closest", "swap", "refresh", "ctor"):
-        return _CODES[15]
-    if code == 16 and desc.get("K", desc.get("got_K")) == 0:
-        return _CODES[16]
     return None
 
 
@@ -80,11 +48,11 @@ TECHNIQUE = ("Coq proof (scan invariants for the IP-diversity paging loop, sorte
              "and over all interleavings of swap steps with readers) on a Gallina model, differential correspondence with the real FullRT and DefaultCrawler")
 LEVEL_TEXT = ("Theorems in coq/Props/C16.v hold for every crawled peer set, address assignment, key, K >= 1 and limit: the answer of the accelerated client is a "
               "strictly ascending (XOR) duplicate-free list of crawled peers of length <= K with at most `limit` peers per IP group, and equals the K nearest crawled peers "
-              "when the limit is off or no group exceeds it and no peer lists one group twice; the paging loop terminates iff K + 2*limit > 0; every schedule of the crawler "
-              "queries exactly the reachable peers, each once when the starting peers are distinct, with one callback per query, within 2*|universe| steps; an atomic table swap "
-              "would give every reader the table of one crawl; chunk arithmetic never panics on a non-empty table. Seven statements of the property are REFUTED on the faithful model "
-              "with concrete witnesses, each replayed on the real code by the harness (mixed read between swap steps, step-0 spin, divide by zero on an empty table, dropped "
-              "limit option, duplicate starting peers, same-group addresses, K = 0 returning the whole table).")
+              "when the limit is off or no group holds more crawled peers than the limit; the paging loop terminates whenever K + 2*limit > 0 and the constructor only "
+              "produces K >= 1 with the configured limit (default bucket size without the option, error below 1); for every interleaving of crawl completions, swaps and "
+              "readers every read is the answer on the table of one completed crawl; every schedule of the crawler, for every seed list (duplicates included), queries exactly "
+              "the reachable peers, each once, with one callback per query, within 2*|reachable| steps; bulk and single operations return an error on an empty table and "
+              "never panic or block. The model describes /repo after the fixes 554fc14..19e6b03; the harness keeps the inputs that triggered each repaired defect.")
 LEVEL_NOTE = ("Proof is about the Gallina model; the tie to the Go code is the correspondence run (differential testing, bounded by the generator). Trusted: Coq kernel, vm_compute, "
               "the harness and its fake host, the ClosestN specification of the external XOR trie, sha256, IP group computation, sync.RWMutex semantics. "
               "Termination of the crawler assumes workers return (timeouts in the real code).")
